@@ -159,11 +159,12 @@ def reopen(rng, sid):
         P.do(c, "u0.close")
         if rng.random() < 0.5: P.do(c, "u0.recv_nb cap=100 bufs=1")
     # phase 2: new datagrams for the new holder, sent at / after the churn instant
-    m2 = rng.choice([0, 1, 2, 4])
+    m2 = rng.choice([0, 1, 2, 3, 4, 6])
     if rng.random() < 0.5: burst(c, m2)
     else: burst(P.at(t1 + rng.choice([0, 1, 1000, 1000000, lat])), m2)
-    if rng.random() < 0.3: burst(P.at(t1 + 2 * lat + 20000000), rng.choice([1, 2]))
-    nrd = m2 + 2 + rng.choice([0, 1, 3])
+    m3 = rng.choice([0, 1, 2, 3])
+    if m3: burst(P.at(t1 + 2 * lat + 20000000), m3)
+    nrd = m2 + m3 + 1 + rng.choice([0, 1, 3])
     style = rng.choice([None, None, "recv", "wait"])
     reader(P, rng, holder, c, [rng.choice([1, 10, 48, 100, 1500, 65536, 65536]) for _ in range(nrd)], style)
     if rng.random() < 0.15:
@@ -253,7 +254,9 @@ def overflow(rng, sid):
     P = Prog(rng)
     P.do("top", "u0.new n0"); P.do("top", "u0.open v4"); P.do("top", "u0.bind 10.0.0.1:7000")
     P.do("top", "u1.new n1"); P.do("top", "u1.open v4"); P.do("top", "u1.bind 10.0.1.1:7001")
-    ln = rng.choice([9000, 30000, 60000, 65535, 32740, 32741, 1000])
+    # 65529 / 21843 / 7281: (k+1) * len + 28 == 262144 exactly for k = 3 / 11 / 35 datagrams queued
+    ln = rng.choice([9000, 30000, 60000, 65535, 1000, 65529, 65530, 21843, 21844, 7281, 7282])
+    exact = ln in (65529, 65530, 21843, 21844, 7281, 7282) and rng.random() < 0.7
     # 262144 / (len) datagrams fill the account; send some more
     fill = 262144 // ln
     m = fill + rng.choice([-1, 0, 1, 2, 5])
@@ -263,7 +266,7 @@ def overflow(rng, sid):
         c = P.at(t); k = min(left, 4)
         for _ in range(k):
             did += 1
-            l2 = ln if rng.random() < 0.8 else rng.choice([1, 100, ln - 1, max(1, ln // 2)])
+            l2 = ln if (exact or rng.random() < 0.8) else rng.choice([1, 100, ln - 1, max(1, ln // 2)])
             P.do(c, "u0.send_to 10.0.1.1:7001 len=%d bufs=1 id=%d" % (l2, did))
         left -= k; t += 3000000
     # the reader starts late and drains; then a second burst arrives at an empty socket
